@@ -33,12 +33,18 @@ type c20Witness struct {
 func init() {
 	core.Register(&core.Check{
 		ID:   "C20",
-		Rule: "inputs: (a) type confusion: for every JSON position of each seed document (generated documents and the repository's testdata files, large ones sampled) one mutant per replacement in {null, true, 0, \"\", [], {}, {$ref: existing component}, {$ref: other kind}, {$ref: 3}, {$ref: \"#/paths\"}, deep copy of the root}; (b) adversarial reference graphs: dangling, self, mutual cycles through every component kind, wrong kind, references to scalars/arrays/extensions, \"#\", \"#/\", \"#//\", long chains, the same through external files served from an in-memory file system with both settings of the external-reference switch and relative/absolute root locations; (c) byte level: truncation at every 64th offset, PRNG bit flips, duplicated keys; (d) depth: nested schemas/arrays/compositions up to 1500 levels (loading cost grows roughly cubically with depth: finite, so deeper inputs are not judged as hangs); (e) YAML: anchors/aliases incl. expansion bombs, merge keys, non-string keys, tabs, multi-documents. Each input goes through LoadFromData / LoadFromDataWithPath and, when a document comes back, Validate (4 option sets), json.Marshal, yaml.Marshal and InternalizeRefs followed by Marshal. Distinct = input hash; non-trivial = the input got past the JSON/YAML parser into typed unmarshalling (it is a mapping at top level).",
+		Rule: "inputs: (a) type confusion: for every JSON position of each seed document (generated documents and the repository's testdata files, large ones sampled) one mutant per replacement in {null, true, 0, \"\", [], {}, {$ref: existing component}, {$ref: other kind}, {$ref: 3}, {$ref: \"#/paths\"}, deep copy of the root}; (b) adversarial reference graphs: dangling, self, mutual cycles through every component kind, wrong kind, references to scalars/arrays/extensions, \"#\", \"#/\", \"#//\", long chains, the same through external files served from an in-memory file system with both settings of the external-reference switch and relative/absolute root locations, and from documents without a location of their own with the switch on (absolute-path, network-path and file references); a reference matrix (36 places inside components where a Reference Object may stand x every component of every kind and pointers into them, through resolved objects and through components that are themselves references, each component reached directly and through an alias that is in progress); schemas that are ill-formed or degenerate meeting boundary values as default / example / enum member (Validate checks those against the schema); self-referring compositions with a default, one process each; (c) byte level: truncation at every 64th offset, PRNG bit flips, duplicated keys; (d) depth: nested schemas/arrays/compositions up to 1500 levels (loading cost grows roughly cubically with depth: finite, so deeper inputs are not judged as hangs); (e) YAML: anchors/aliases incl. expansion bombs, merge keys, non-string keys, tabs, multi-documents. Each input goes through LoadFromData / LoadFromDataWithPath and, when a document comes back, Validate (4 option sets), json.Marshal, yaml.Marshal and InternalizeRefs followed by Marshal. Distinct = input hash; non-trivial = the input got past the JSON/YAML parser into typed unmarshalling (it is a mapping at top level).",
 		Assumptions: []string{
 			"hang = one input consuming more than 30 CPU-seconds; network access is impossible (reader overridden by an in-memory file system)",
 		},
-		Shards:         func(string) int { return 16 },
+		Shards:         func(string) int { return 16 + len(c20CrashProbes()) }, // 16 workload shards + one process per crash probe
 		Run:            runC20,
+		CrashFeatures: func(caseDesc string) map[string]string {
+			if strings.Contains(caseDesc, "probe:nonproductive-schema-cycle") {
+				return map[string]string{"probe": "nonproductive-schema-cycle"}
+			}
+			return nil
+		},
 		Replay:         replayC20,
 		CaseCPUSeconds: 30,
 	})
@@ -49,12 +55,25 @@ type c20input struct {
 	data   []byte
 	files  map[string]string // in-memory FS (path -> content); nil = none
 	root   string            // root location ("" = LoadFromData)
+	both   bool              // run with external references allowed as well, even without a file system
 }
 
 func runC20(c *core.Ctx) {
+	const workShards = 16
+	if c.Shard >= workShards {
+		probes := c20CrashProbes()
+		if i := c.Shard - workShards; i < len(probes) {
+			in := probes[i]
+			in.origin = "probe:nonproductive-schema-cycle " + in.origin
+			c.Cover("probes", in.origin)
+			c20Run(c, in)
+		}
+		return
+	}
 	idx := 0
+	mine := func(i int) bool { return i%workShards == c.Shard }
 	emit := func(in c20input) {
-		if c.Mine(idx) {
+		if mine(idx) {
 			c20Run(c, in)
 		}
 		idx++
@@ -100,7 +119,7 @@ func runC20(c *core.Ctx) {
 		}
 		for pi := 0; pi < len(positions); pi += step {
 			for ri := range c20Replacements(tree) {
-				if c.Mine(idx) {
+				if mine(idx) {
 					m := replaceAt(gen.CloneValue(tree), positions[pi], c20Replacements(tree)[ri])
 					b, err := json.Marshal(m)
 					if err == nil {
@@ -113,6 +132,12 @@ func runC20(c *core.Ctx) {
 	}
 	// (b) reference graphs
 	for _, in := range c20RefGraphs() {
+		emit(in)
+	}
+	for _, in := range c20RefMatrix() {
+		emit(in)
+	}
+	for _, in := range c20ValueInSchema() {
 		emit(in)
 	}
 	// (c) byte level
@@ -207,7 +232,7 @@ func c20RefGraphs() []c20input {
 		return b
 	}
 	targets := []string{"#/components/%s/B", "#/components/%s/A", "#/components/%s/Missing", "#", "#/", "#//", "#/components", "#/components/%s", "#/info", "#/info/title", "#/openapi", "#/x-ext", "#/x-ext/0",
-		"#/paths", "#/components/%s/A/x", "#/components/%s/~1", "#/components/%s/%%zz", "other.json", "other.json#/components/%s/A", "sub/../other.json#/x", "file:///etc/hostname", "http://example.invalid/x.json", "//host/x", "?", "#/components/%s/A#frag", " "}
+		"#/paths", "#/components/%s/A/x", "#/components/%s/~1", "#/components/%s/%%zz", "other.json", "other.json#/components/%s/A", "sub/../other.json#/x", "/abs/x.json", "/abs/x.json#/components/%s/A", "/", "//", "///x", "file:///etc/hostname", "http://example.invalid/x.json", "//host/x", "?", "#/components/%s/A#frag", " "}
 	for _, k := range kinds {
 		for _, tgt := range targets {
 			t := tgt
@@ -223,7 +248,7 @@ func c20RefGraphs() []c20input {
 				}
 			}
 			doc := mk(comps, nil)
-			out = append(out, c20input{origin: "refgraph " + k.coll + " -> " + t, data: doc})
+			out = append(out, c20input{origin: "refgraph " + k.coll + " -> " + t, data: doc, both: true})
 			// the same with an in-memory file system and both locations
 			fs := map[string]string{"/w/other.json": string(mk(gen.S{k.coll: gen.S{"A": gen.S{"$ref": "root.json#/components/" + k.coll + "/B"}}}, nil)), "/w/root.json": string(doc)}
 			out = append(out, c20input{origin: "refgraph+fs(abs) " + k.coll + " -> " + t, data: doc, files: fs, root: "/w/root.json"})
@@ -232,7 +257,7 @@ func c20RefGraphs() []c20input {
 		}
 	}
 	// references from every position in paths
-	refs := []string{"#/components/schemas/A", "#/components/schemas/Missing", "#/paths/~1p", "#/components/parameters/A", "other.json", "other.json#/components/schemas/A"}
+	refs := []string{"#/components/schemas/A", "#/components/schemas/Missing", "#/paths/~1p", "#/components/parameters/A", "other.json", "other.json#/components/schemas/A", "/abs/other.json", "/abs/other.json#/components/schemas/A", "//host/other.json"}
 	for _, rf := range refs {
 		ref := gen.S{"$ref": rf}
 		paths := gen.S{"/p": gen.S{"$ref": rf}, "/q/{id}": gen.S{
@@ -247,7 +272,7 @@ func c20RefGraphs() []c20input {
 			"parameters": gen.S{"A": gen.S{"name": "a", "in": "query", "schema": ref}}}
 		doc := mk(comps, paths)
 		fs := map[string]string{"other.json": string(mk(gen.S{"schemas": gen.S{"A": gen.S{"$ref": "root.json#/components/schemas/A"}}}, nil)), "root.json": string(doc)}
-		out = append(out, c20input{origin: "refs-everywhere " + rf, data: doc})
+		out = append(out, c20input{origin: "refs-everywhere " + rf, data: doc, both: true})
 		out = append(out, c20input{origin: "refs-everywhere+fs " + rf, data: doc, files: fs, root: "root.json"})
 		fsAbs := map[string]string{"/abs/dir/other.json": fs["other.json"], "/abs/dir/root.json": string(doc)}
 		out = append(out, c20input{origin: "refs-everywhere+fs(abs) " + rf, data: doc, files: fsAbs, root: "/abs/dir/root.json"})
@@ -379,7 +404,7 @@ func sortedStringKeys(m map[string]string) []string {
 
 func c20Run(c *core.Ctx, in c20input) {
 	allowSets := []bool{false}
-	if in.files != nil {
+	if in.files != nil || in.both {
 		allowSets = []bool{false, true}
 	}
 	for _, allow := range allowSets {
